@@ -32,8 +32,37 @@ CHECKS = {
     "C02": data(),
     "C03": data(),
     "C07": data(extra_assumptions=["Named consumers collide with numeric ones only through the 32-bit name hash; that probability is ignored."]),
+}
+PENDING = {
     "C16": data(),
     "C17": data(),
     "C18": data(extra_assumptions=["The id cache's own TTL/capacity edges are not explored (moka has its own clock); workloads stay far inside both, as the quantifier allows."]),
     "C19": data(),
 }
+
+# ------------------------------------------------------------------------------------------------
+# texts for MANIFEST.json
+
+_DATA_NOTE = ("Trusted base: the harness' reference models (plain Rust, no code shared with iggy), the SDK's command encoders/"
+              "response decoders used by the raw client, hook H2 for in-process restart. Reach: the histories generated in the budget; "
+              "no claim beyond what evidence/<id>.json lists.")
+
+MANIFEST_TEXT = {
+    "C01": {"level_text": "Exploration: thousands of seeded histories against the real server; after every send and every poll the model's offset<->message mapping and the reported current offset are compared; held on what was observed, no more.",
+            "design_ref": "DESIGN.md §4 C01", "level_note": _DATA_NOTE,
+            "technique": "runtime monitoring: reference log model vs client-boundary observations over seeded histories"},
+    "C02": {"level_text": "Exploration: every poll of every history (offset/first/last/next/timestamp; windows aimed at save points, restart points and segment boundaries) is compared with the exact slice of the reference log model, field by field.",
+            "design_ref": "DESIGN.md §4 C02", "level_note": _DATA_NOTE,
+            "technique": "runtime monitoring: exact-slice oracle from a reference log model over seeded histories"},
+    "C03": {"level_text": "Exploration: before/after (metamorphic) equality of full scans, current offsets and counts across 1-5 clean restarts per history, then the C01/C02 oracles keep running on post-restart traffic.",
+            "design_ref": "DESIGN.md §4 C03", "level_note": _DATA_NOTE,
+            "technique": "runtime monitoring: before/after restart comparison + reference model"},
+    "C07": {"level_text": "Exploration: after every offset-mutating step all identities (consumers, named consumers, groups with colliding ids) are read back on the partition and compared with an offset model; next-polls and auto-commit are checked against the same model.",
+            "design_ref": "DESIGN.md §4 C07", "level_note": _DATA_NOTE,
+            "technique": "runtime monitoring: offset reference model with full read-back after each mutation"},
+}
+
+NOT_APPLICABLE = [
+    {"property_id": p, "reason": "check under construction in this framework (not yet claimed)"}
+    for p in ["C04", "C05", "C06", "C08", "C09", "C10", "C11", "C12", "C13", "C14", "C15", "C16", "C17", "C18", "C19", "C20"]
+]
